@@ -136,7 +136,7 @@ def run(v):
     if v.tier == "quick":
         extra = ["-n", "60", "-budget", "12s", "-small", "-eptime", "4s", "-snapdup", "3", "-regsched", "2", "-regstress", "8"]
     else:
-        extra = ["-n", "600", "-budget", "25m", "-snapdup", "12", "-regsched", "3", "-regstress", "80"]
+        extra = ["-n", "600", "-budget", "25m", "-snapdup", "12", "-regsched", "3", "-regstress", "80", "-ckptsnap", "40"]
     rc, o = run_harness(v, out, extra)
     basic = os.path.join(out, "cases_basic.txt")
     if rc != 0 or not os.path.exists(os.path.join(out, "stats.json")):
@@ -167,7 +167,7 @@ def run(v):
     races = parse_races(out)
     race_sigs = sorted(set(r["signature"] for r in races))
     kinds = sum(1 for k, n in ops_total.items() if n > 0)
-    scen = [k for k in ("f9", "snapdup", "halfinit", "regstress") if extra_s.get(k)]
+    scen = [k for k in ("f9", "snapdup", "halfinit", "regstress", "ckptsnap") if extra_s.get(k)]
     reg_cases = sum(n for k, n in (stats.get("classes") or {}).items() if k.startswith("regsched/"))
     v.coverage.update({
         "evaluations": n_calls + total,
@@ -191,7 +191,10 @@ def run(v):
         "operation_kinds_exercised": kinds,
         "snapshots_checked_against_l0_chain": sum(e.get("snapshots_checked", 0) for e in eps),
         "app_commits_during_stress": sum(e.get("app_commits", 0) for e in eps),
-        "scenarios": {k: extra_s.get(k) for k in ("basic", "f9", "snapdup", "halfinit", "regsched", "regstress")},
+        "corrupt_published_snapshots_replaced_by_good_upload": sum(e.get("corrupt_published_snapshots_replaced_by_good_upload", 0) for e in eps),
+        "local_only_l0_files_after_cancelled_close": sum(e.get("local_only_l0_files_after_close", 0) for e in eps),
+        "corrupt_published_snapshots_set_aside": sum(e.get("corrupt_published_snapshots_set_aside", 0) for e in eps),
+        "scenarios": {k: extra_s.get(k) for k in ("basic", "f9", "snapdup", "halfinit", "ckptsnap", "regsched", "regstress")},
         "registry_schedules_compared_with_model": reg_cases,
         "race_reports": len(races),
         "race_report_groups": race_sigs,
